@@ -192,7 +192,10 @@ def __resolve_target_and_ir(
     if symbol is None:
         raise ImportError
 
-    if symbol in environment.target_ir:
+    # NOTE
+    # Symbols compare by name and interface only, so also check the defining file:
+    # a function in an imported module may be named like one in the target file
+    if __is_defined_in_target(symbol, environment=environment):
         return IrTarget(symbol=symbol, ir=environment.target_ir[symbol])
 
     filename = symbol.location.defined_in
@@ -211,19 +214,40 @@ def __resolve_target_and_ir(
     return IrTarget(symbol=symbol, ir=module_ir[symbol])
 
 
+def __is_defined_in_target(
+    symbol: Func | Class,
+    *,
+    environment: IrEnvironment,
+) -> bool:
+    for target_symbol in environment.target_ir:
+        if target_symbol == symbol:
+            return target_symbol.location.defined_in == symbol.location.defined_in
+    return False
+
+
 def __resolve_real_class_target(
     target: Class,
     *,
     environment: IrEnvironment,
 ) -> Class:
+    candidates: list[Class] = []
+
     for symbol in environment.target_ir:
         if isinstance(symbol, Class) and target.name == symbol.name:
-            return symbol
+            candidates.append(symbol)
 
     for _, import_ir in environment.import_irs.items():
         for symbol in import_ir:
             if isinstance(symbol, Class) and target.name == symbol.name:
-                return symbol
+                candidates.append(symbol)
+
+    # NOTE Prefer the class defined in the same file as the class that is called
+    for symbol in candidates:
+        if symbol.location.defined_in == target.location.defined_in:
+            return symbol
+
+    if candidates:
+        return candidates[0]
 
     return target
 
